@@ -80,6 +80,11 @@ pub struct MapCase {
     /// 64 / 128), pseudo-random order
     #[serde(default)]
     pub embed: Option<(u8, u64)>,
+    /// which diagram of the function is queried (when not embedded): 1 = the canonical BDD smoothed over a prefix
+    /// of the order (don't-care nodes), 2 = the top-down compilation of the CNF source (unreduced nodes with
+    /// constant children), else the canonical BDD
+    #[serde(default)]
+    pub kind: u8,
 }
 
 pub struct Map;
@@ -91,8 +96,27 @@ pub fn run_map(case: &MapCase, st: &mut Stats) -> CaseResult {
     let emb = embedding(case.embed, n, &order);
     let b = RobddBuilder::<AllIteTable<BddPtr>>::new(VarOrder::new(&emb.order.iter().map(|v| VarLabel::new_usize(*v)).collect::<Vec<_>>()));
     let f = bdd_from_tt_labels(&b, t, &emb.labels);
+    // other diagrams of the same function: smoothed (every path tests a whole prefix of the order) or compiled top-down
+    let td_order = VarOrder::new(&order.iter().map(|v| VarLabel::new_usize(*v)).collect::<Vec<_>>());
+    let td = rsdd::builder::decision_nnf::StandardDecisionNNFBuilder::new(td_order);
+    let f = match (case.kind % 4, case.embed.is_none() && n > 0) {
+        (1, true) => {
+            let deepest = order.iter().rposition(|v| t.depends(*v)).map(|p| p + 1).unwrap_or(0);
+            let ns = n - (case.extra_vars as usize / 4) % (n - deepest + 1);
+            st.bump("map.diagram.smoothed");
+            b.smooth(f, ns)
+        }
+        (2, true) if case.src.cnf().is_some() => {
+            st.bump("map.diagram.top_down");
+            rsdd::builder::decision_nnf::DecisionNNFBuilder::compile_cnf_topdown(&td, &case.src.cnf().unwrap().to_rsdd())
+        }
+        _ => {
+            st.bump("map.diagram.canonical");
+            f
+        }
+    };
     // the optimum is taken over the function the diagram denotes (whether the builder produced the requested
-    // one is C01's concern)
+    // one is C01's / C06's / C08's concern)
     let t = bdd_tt(f);
     // query set in an arbitrary order
     let mut q: Vec<usize> = (0..n).filter(|v| (case.qmask >> v) & 1 == 1).collect();
@@ -226,7 +250,7 @@ pub fn run_map(case: &MapCase, st: &mut Stats) -> CaseResult {
 impl SubCheckT for Map {
     type Case = MapCase;
     const NAME: &'static str = "marginal_map";
-    const RULE: &'static str = "random function over <=6 variables under a random order (in a quarter of the cases inside a builder with 9..198 variables, its variables scattered over labels that cross 32 / 64 / 128); query set = any subset in any order (empty, all, variables outside the support); weights k/8 in [0,1] (or, in a third of the cases, powers of two down to 2^-7 and their complements, with query weights any power of two down to 2^-15, so that values go far below 1e-9 and candidates lie closer than any fixed tolerance), normalised on non-query variables, arbitrary on query variables: marginal_map and bb::<RealSemiring> return exactly the maximum over all query assignments of the weighted count restricted to the assignment (exhaustive enumeration, exact dyadic arithmetic), the returned model assigns every query variable and attains that value (any maximiser accepted on ties); num_vars = n..n+3. Non-trivial: >=2 query variables in the support and >=2 distinct values among query assignments";
+    const RULE: &'static str = "random function over <=6 variables under a random order (in a quarter of the cases inside a builder with 9..198 variables, its variables scattered over labels that cross 32 / 64 / 128); query set = any subset in any order (empty, all, variables outside the support); weights k/8 in [0,1] (or, in a third of the cases, powers of two down to 2^-7 and their complements, with query weights any power of two down to 2^-15, so that values go far below 1e-9 and candidates lie closer than any fixed tolerance), normalised on non-query variables, arbitrary on query variables; the diagram queried is the canonical BDD or, when not embedded, that BDD smoothed over a prefix of the order, or the top-down compilation of the CNF source: marginal_map and bb::<RealSemiring> return exactly the maximum over all query assignments of the weighted count restricted to the assignment (exhaustive enumeration, exact dyadic arithmetic), the returned model assigns every query variable and attains that value (any maximiser accepted on ties); num_vars = n..n+3. Non-trivial: >=2 query variables in the support and >=2 distinct values among query assignments";
     fn cases(tier: Tier) -> u32 {
         tier.pick(30_000, 300_000)
     }
@@ -240,10 +264,12 @@ impl SubCheckT for Map {
         )
             .prop_map(|(src, order, qmask, qkeys, w)| {
                 let x = qkeys.iter().fold(0u16, |a, b| a ^ b);
-                let extra_vars = (x % 4) as u8;
+                // low two bits: extra variables; the bits above: how far the smoothed prefix extends
+                let extra_vars = (x % 4) as u8 | ((((x >> 9) % 8) as u8) << 2);
+                let kind = ((x >> 12) % 4) as u8;
                 let tiny = (x >> 2) % 3 == 0;
                 let embed = if (x >> 5) % 4 == 0 { Some((9 + ((x >> 7) % 190) as u8, 0x9E37_79B9u64.wrapping_mul(x as u64 + 1))) } else { None };
-                MapCase { src, order, qmask, qkeys, w, extra_vars, tiny, embed }
+                MapCase { src, order, qmask, qkeys, w, extra_vars, tiny, embed, kind }
             })
             .boxed()
     }
